@@ -44,7 +44,6 @@ Definition oand (a b : N) : N := if a =? 0 then 0 else if b =? 0 then 0 else if 
 Definition comps_match (vs : list val) (cs : list wcomp) : bool :=
   val_eqb (VL vs) (VL (map e_wcomp cs)).
 
-Definition removelast_w (l : list wcomp) : list wcomp := rev (tl (rev l)).
 
 (* ---------------- C03 ---------------- *)
 Definition comp_slice (c : val) : option (list byte) :=
@@ -308,26 +307,291 @@ Definition oracle_c11 (s : osel) (p : list byte) (out : val) : N :=
   | _ => fail
   end.
 
-(* ---------------- C10 (Unix; the Windows relations compare raw bytes: known class D7) ---------------- *)
+(* ---------------- C08 (Windows rule table) and push histories ---------------- *)
+(* the Unix counterpart of the rule table, used for histories: b itself when it is rooted or the
+   buffer is empty, otherwise exactly one '/' between the two unless the buffer already ends in one *)
+Definition ujoin_spec (a b : list byte) : list byte :=
+  match b with
+  | [] => a
+  | c :: _ => if usep_s c then b
+              else match a with
+                   | [] => b
+                   | _ => match rev a with x :: _ => if usep_s x then a ++ b else a ++ 47 :: b | [] => b end
+                   end
+  end.
+Definition ojoin (s : osel) (a b : list byte) : list byte := match s with OU => ujoin_spec a b | OW => join_spec a b end.
+Definition oracle_c08 (s : osel) (a b : list byte) (out : val) : N :=
+  match vargs "c08" out with
+  | Some [j; VL [snap]] =>
+      match vargs "t" j, vargs "t" snap with
+      | Some [VB jb; _], Some [VB buf; _; _] => ob (beq_list jb (ojoin s a b) && beq_list buf jb)
+      | _, _ => fail
+      end
+  | _ => fail
+  end.
+(* one step of a buffer history against the specifications (operations without a byte-level
+   specification here are accepted: they are covered by their own properties) *)
+Definition hist_step_ok (s : osel) (buf : list byte) (op : val) (snap : val) : bool :=
+  match vargs "t" snap with
+  | Some [VB nb; res; _] =>
+      match op with
+      | VC t [VB x] =>
+          if tag_is t "push" || tag_is t "join" then beq_list nb (ojoin s buf x)
+          else if tag_is t "pushc" then
+            match scan_spec (otable s) (ospec s x) O with
+            | Some e => beq_list nb buf && val_eqb res (e_err e)
+            | None => beq_list nb (ojoin s buf x) && is_vn res
+            end
+          else true
+      | VC t [] =>
+          if tag_is t "clear" then beq_list nb []
+          else if tag_is t "pop" then
+            match res with
+            | VBool true => parent_rel s buf nb
+            | VBool false => no_parent s buf && beq_list nb buf
+            | _ => false
+            end
+          else true
+      | VC t [VL xs] =>
+          let bs := flat_map (fun x => match x with VB b => [b] | _ => [] end) xs in
+          if tag_is t "extend" then beq_list nb (fold_left (ojoin s) bs buf)
+          else if tag_is t "collect" then beq_list nb (fold_left (ojoin s) bs [])
+          else true
+      | _ => true
+      end
+  | _ => false
+  end.
+Fixpoint hist_ok (s : osel) (buf : list byte) (ops snaps : list val) : bool :=
+  match ops, snaps with
+  | [], [] => true
+  | op :: ops', sn :: snaps' =>
+      hist_step_ok s buf op sn &&
+      match vargs "t" sn with Some (VB nb :: _) => hist_ok s nb ops' snaps' | _ => false end
+  | _, _ => false
+  end.
+Definition oracle_hist (s : osel) (i : list byte) (ops : list val) (out : val) : N :=
+  match vargs "hist" out with
+  | Some [VL snaps] => ob (hist_ok s i ops snaps)
+  | _ => fail
+  end.
+
+(* a base made of exactly two separators has no component but a root, yet anything joined onto it
+   re-reads as a UNC / device prefix (\\ + b = \\b): excluded from the join statements, see DESIGN.md (D10) *)
+Definition KNOWN_C10_TWOSEP : N := 10.
+Definition KNOWN_C10_REMAINDER : N := 15.   (* D15: the remainder of strip_prefix starts with two separators and re-reads as a prefix *)
+Definition c10_twosep (s : osel) (a : list byte) : bool :=
+  match s, a with OW, [x; y] => s_sep_any x && s_sep_any y | _, _ => false end.
+(* ---------------- C10 ---------------- *)
+(* The implementation compares components by their bytes (helpers::iter_after).  At Unix bytes
+   determine the component.  At Windows they do not: known finding D7 = the cases where the
+   byte-wise relation and the component-wise relation differ and the implementation follows the bytes. *)
+Definition KNOWN_C10_BYTES : N := 7.
+Definition wc_bytes_eqb (x y : wcomp) : bool := beq_list (wc_bytes x) (wc_bytes y).
+Fixpoint wlist_prefix_by (eq : wcomp -> wcomp -> bool) (p l : list wcomp) : bool :=
+  match p, l with
+  | [], _ => true
+  | x :: p', y :: l' => eq x y && wlist_prefix_by eq p' l'
+  | _ :: _, [] => false
+  end.
+(* what b contributes when joined onto a (a without verbatim prefix, b relative and prefix-free):
+   the separator inserted after a bare non-disk prefix shows as a root; a leading "." of b survives
+   only if it still starts the path (a empty or a bare drive) *)
+Definition implicit_root (ca : list wcomp) : list wcomp :=
+  match ca with [WPrefix _ k] => if is_disk k then [] else [WC Root] | _ => [] end.
+Definition tail_comps (ca cb : list wcomp) : list wcomp :=
+  match ca with
+  | [] => cb
+  | [WPrefix _ k] => if is_disk k then cb else match cb with WC Cur :: t => t | _ => cb end
+  | _ => match cb with WC Cur :: t => t | _ => cb end
+  end.
 Definition oracle_c10 (s : osel) (a b : list byte) (out : val) : N :=
-  match s, vargs "c10" out with
-  | OU, Some [rel; ec; j; rel2] =>
+  match vargs "c10" out with
+  | Some [rel; ec; j; rel2] =>
       let ca := ospec s a in let cb := ospec s b in
       let sw := wlist_prefix cb ca in
       let ew := wlist_suffix cb ca in
+      let swb := wlist_prefix_by wc_bytes_eqb cb ca in
+      let ewb := wlist_prefix_by wc_bytes_eqb (rev cb) (rev ca) in
       match vargs "t" rel with
       | Some [VBool sw'; VBool ew'; sp] =>
+          let known := match s with OU => false | OW => negb (Bool.eqb sw swb) || negb (Bool.eqb ew ewb) end in
+          let rel_ok := Bool.eqb sw sw' && Bool.eqb ew ew' in
+          let rel_bytes := Bool.eqb swb sw' && Bool.eqb ewb ew' in
+          let sp_exist_ok := match obytes sp with Some (Some _) => sw' | Some None => negb sw' | None => false end in
           let sp_ok :=
+            sp_exist_ok &&
             match obytes sp with
-            | Some (Some r) => sw && wlist_eqb (ospec s r) (skipn (List.length cb) ca)
-            | Some None => negb sw
-            | None => false
+            | Some (Some r) =>
+                (match s with
+                 | OU => wlist_eqb (ospec s r) (skipn (List.length cb) ca)
+                 | OW => (* q joined with the remainder gives p back, up to the normalisation a verbatim q applies *)
+                     if owf s a && owf s b then
+                       if sp_verbatim b then wlist_eqb (ospec s (ojoin s b r)) (fold_left vstep (skipn (List.length cb) ca) cb)
+                       else wlist_eqb (ospec s (ojoin s b r)) ca
+                     else true
+                 end)
+            | _ => true
             end in
-          ob (Bool.eqb sw sw' && Bool.eqb ew ew' && sp_ok)
+          (* a joined with a relative, prefix-free b starts with a; stripping a yields what b contributes *)
+          let join_ok :=
+            match vargs "t" j, vargs "t" rel2 with
+            | Some [VB jb; _], Some [VBool jsw; _; jsp] =>
+                let relb := negb (existsb (fun c => k_is_prefix c || k_is_root c) cb) in
+                let averb := match s with OU => false | OW => sp_verbatim a end in
+                if relb && negb averb && owf s a && owf s b && negb (match b with [] => true | _ => false end) then
+                  jsw && match obytes jsp with
+                         | Some (Some r) => wlist_eqb (ospec s r) (implicit_root ca ++ tail_comps ca cb)
+                         | _ => false
+                         end
+                else true
+            | _, _ => false
+            end in
+          if rel_ok && sp_ok && join_ok then pass
+          else if known && rel_bytes then KNOWN_C10_BYTES
+          else if rel_ok && sp_exist_ok && (c10_twosep s a || c10_twosep s b) then KNOWN_C10_TWOSEP
+          else if rel_ok && sp_exist_ok && join_ok &&
+                  match s, obytes sp with OW, Some (Some (x :: y :: _)) => s_sep_any x && s_sep_any y | _, _ => false end
+               then KNOWN_C10_REMAINDER
+          else fail
       | _ => fail
       end
-  | OW, Some _ => pass
-  | _, _ => fail
+  | _ => fail
+  end.
+
+(* ---------------- C16 ---------------- *)
+Definition KNOWN_C16_DRIVEREL : N := 9.      (* D9: a disk prefix not followed by a root survives as a name *)
+Definition KNOWN_C16_RESPLIT : N := 12.      (* D12: a source name containing a separator of the target is re-split *)
+Definition KNOWN_C16_SAMEPREFIX : N := 14.   (* D14: checked conversion to the own encoding loses a non-disk Windows prefix *)
+Definition other (s : osel) : osel := match s with OU => OW | OW => OU end.
+Definition osep (s : osel) (b : byte) : bool := match s with OU => usep_s b | OW => s_sep_any b end.
+(* kinds and names, prefix left out *)
+Definition kinds_names (cs : list wcomp) : list comp := flat_map (fun c => match c with WPrefix _ _ => [] | WC x => [x] end) cs.
+Definition names_of (cs : list wcomp) : list (list byte) := flat_map (fun c => match c with WC (Normal n) => [n] | _ => [] end) cs.
+(* what a converted path must consist of: the prefix dropped; a root when the source has a root or
+   a non-disk prefix; then the same kinds and names *)
+Definition conv_expected (cs : list wcomp) : list comp :=
+  match cs with
+  | WPrefix _ k :: rest =>
+      if is_disk k then kinds_names rest
+      else match rest with WC Root :: _ => kinds_names rest | _ => Root :: kinds_names rest end
+  | _ => kinds_names cs
+  end.
+(* a "." that does not start the path exists only in a verbatim (non-normalised) Windows path; no
+   Unix or normalised Windows path can hold it, so it is not demanded of the converted path *)
+Definition drop_interior_cur (l : list comp) : list comp :=
+  match l with
+  | Cur :: t => Cur :: filter (fun c => negb (c_is_current c)) t
+  | _ => filter (fun c => negb (c_is_current c)) l
+  end.
+Definition driverel (cs : list wcomp) : bool :=
+  match cs with WPrefix _ k :: rest => is_disk k && negb (match rest with WC Root :: _ => true | _ => false end) | _ => false end.
+Definition nondisk_prefix (cs : list wcomp) : bool := match cs with WPrefix _ k :: _ => negb (is_disk k) | _ => false end.
+Definition res_parts (v : val) : option (option (list byte)) :=
+  match vargs "ok" v, vargs "err" v with
+  | Some [VB r], _ => Some (Some r)
+  | _, Some _ => Some None
+  | _, _ => None
+  end.
+Definition oracle_c16 (s : osel) (p : list byte) (out : val) : N :=
+  match vargs "c16" out with
+  | Some [VB conv; chk; VB same; schk; VB rt] =>
+      let t := other s in
+      let src := ospec s p in
+      let names := names_of src in
+      let both_ok := forallb (fun n => name_ok forbidden_unix n && name_ok forbidden_windows n) names in
+      let tgt_ok := forallb (name_ok (otable t)) names in
+      let own_ok := forallb (name_ok (otable s)) names in
+      let resplit := existsb (fun n => existsb (osep t) n) names in
+      let expected := drop_interior_cur (conv_expected src) in
+      (* 1. to its own encoding: the same bytes *)
+      let same_ok := beq_list same p in
+      (* 2./3. unchecked conversion keeps kinds and names, drops the prefix, keeps rootedness; round trip is an equal path *)
+      let conv_ok :=
+        if both_ok then
+          list_eqb (kinds_names (ospec t conv)) expected
+          && (if negb (existsb k_is_prefix src) then wlist_eqb (ospec s rt) src else true)
+        else true in
+      (* 4. checked conversion *)
+      let chk_ok :=
+        match res_parts chk with
+        | Some (Some r) =>
+            beq_list r conv && forallb (comp_ok (otable t)) (ospec t r) && tgt_ok
+            && list_eqb (kinds_names (ospec t r)) expected
+        | Some None => true
+        | None => false
+        end in
+      (* it fails whenever a source name contains a byte the target forbids *)
+      let chk_fail_ok := match res_parts chk with Some (Some _) => tgt_ok | _ => true end in
+      (* 5. checked conversion to the own encoding: an equal, valid path *)
+      let schk_ok :=
+        match res_parts schk with
+        | Some (Some r) => wlist_eqb (ospec s r) src && own_ok
+        | Some None => true
+        | None => false
+        end in
+      let cross_fail := negb (conv_ok && chk_ok && chk_fail_ok) in
+      let same_fail := negb schk_ok in
+      let resplit_own := existsb (fun n => existsb (osep s) n) names in
+      let cross_explained := driverel src || resplit in
+      let same_explained := nondisk_prefix src || resplit_own in
+      if negb same_ok then fail
+      else if negb cross_fail && negb same_fail then pass
+      else if (negb cross_fail || cross_explained) && (negb same_fail || same_explained) then
+        (if cross_fail then (if driverel src then KNOWN_C16_DRIVEREL else KNOWN_C16_RESPLIT)
+         else (if nondisk_prefix src then KNOWN_C16_SAMEPREFIX else KNOWN_C16_RESPLIT))
+      else fail
+  | _ => fail
+  end.
+
+(* ---------------- C02 ---------------- *)
+(* every query as a function of the grammar decomposition [wspec p] *)
+Definition c02_flags (cs : list wcomp) : val :=
+  let k := match cs with WPrefix _ k :: _ => Some k | _ => None end in
+  let is k' := match k with Some x => k' x | None => false end in
+  let phys := match cs with WC Root :: _ => true | WPrefix _ _ :: WC Root :: _ => true | _ => false end in
+  vt [VBool (is (fun _ => true)); vopt e_wkind k;
+      VBool (is k_verbatim);
+      VBool (is (fun x => match x with Verbatim _ => true | _ => false end));
+      VBool (is (fun x => match x with VerbatimUNC _ _ => true | _ => false end));
+      VBool (is (fun x => match x with VerbatimDisk _ => true | _ => false end));
+      VBool (is (fun x => match x with DeviceNS _ => true | _ => false end));
+      VBool (is (fun x => match x with UNC _ _ => true | _ => false end));
+      VBool (is is_disk);
+      VBool phys;
+      VBool (is (fun x => negb (is_disk x)));
+      VBool (match cs with
+             | WC Root :: _ => true
+             | WPrefix _ (Disk _ | VerbatimDisk _) :: rest => match rest with WC Root :: _ => true | _ => false end
+             | WPrefix _ _ :: _ => true
+             | _ => false
+             end);
+      VBool (match cs with WPrefix _ _ :: WC Root :: _ => true | _ => false end)].
+Definition drive_ok (k : wprefix) : bool :=
+  match k with Disk d | VerbatimDisk d => (65 <=? d) && (d <=? 90) | _ => true end.
+(* WindowsPrefix::len as documented: the length of the canonical spelling of the kind *)
+Definition kind_len (k : wprefix) : nat :=
+  let sh := fun y : list byte => match y with [] => O | _ => S (List.length y) end in
+  match k with
+  | Verbatim x => 4 + List.length x
+  | VerbatimUNC x y => 8 + List.length x + sh y
+  | VerbatimDisk _ => 6
+  | DeviceNS x => 4 + List.length x
+  | UNC x y => 2 + List.length x + sh y
+  | Disk _ => 2
+  end%nat.
+Definition oracle_c02 (p : list byte) (out : val) : N :=
+  match vargs "c02" out with
+  | Some [VL cf; VL cb; flags; tf; ptf; kl] =>
+      let cs := wspec p in
+      let k := match cs with WPrefix raw k :: _ => Some (raw, k) | _ => None end in
+      ob (comps_match cf cs && comps_match cb (rev cs)
+          && val_eqb flags (c02_flags cs)
+          && val_eqb tf (match cs with [c] => VSome (e_wcomp c) | _ => VN end)
+          && val_eqb ptf (match cs with [WPrefix raw k] => VSome (vpair (VB raw) (e_wkind k)) | _ => VN end)
+          && val_eqb kl (match k with Some (raw, k) => VSome (vpair (vnat (kind_len k)) (VBool (k_verbatim k))) | None => VN end)
+          && match k with Some (raw, k) => drive_ok k && beq_list raw (firstn (List.length raw) p) | None => true end
+          && forallb (fun c => negb (k_is_prefix c)) (tl cs))
+  | _ => fail
   end.
 
 Definition oracle (name suffix : string) (args : list val) (out : val) : N :=
@@ -342,6 +606,10 @@ Definition oracle (name suffix : string) (args : list val) (out : val) : N :=
         match args with [VB a; VB b] => oracle_c04 s a b out | _ => fail end
       else if tag_is name "c05" then
         match args with [VB a; VB b] => oracle_c05 s a b out | _ => fail end
+      else if tag_is name "c08" then
+        match args with [VB a; VB b] => oracle_c08 s a b out | _ => fail end
+      else if tag_is name "hist" then
+        match args with [VB i; VL ops] => oracle_hist s i ops out | _ => fail end
       else if tag_is name "c09" then
         match args with [VB p] => oracle_c09 s p out | _ => fail end
       else if tag_is name "c10" then
@@ -354,6 +622,10 @@ Definition oracle (name suffix : string) (args : list val) (out : val) : N :=
         match args with [VB p; VB e] => oracle_c13 s p e out | _ => fail end
       else if tag_is name "c17" then
         match args with [VB p] => oracle_c17 s typed p out | _ => fail end
+      else if tag_is name "c02" then
+        match s, args with OW, [VB p] => oracle_c02 p out | _, _ => fail end
+      else if tag_is name "c16" then
+        match args with [VB p] => oracle_c16 s p out | _ => fail end
       else if tag_is name "c19p" then
         match args, out with
         | [VB a; VB b], VC t [VBool eq; ord; VBool consistent] =>
